@@ -22,24 +22,26 @@ Record dstate := {
   d_docs : list (bytes * did_doc);          (* document literals by reference name *)
   d_keys58 : list (bytes * bytes);          (* base58 string -> 33-byte secp256k1 key (absent = not a key) *)
   d_sigs : list (bytes * (bytes * bytes));  (* valid signatures: key, (signed bytes, signature) *)
+  d_watch : list bytes;                     (* addresses whose balance deltas are reported per transaction *)
+  d_denoms : list bytes;
 }.
 
 Definition dinit : dstate :=
   {| d_unbech := []; d_bech := []; d_chain := empty_chain; d_now := 0%Z; d_fee_collector := []; d_blocked := [];
-     d_tx := None; d_docs := []; d_keys58 := []; d_sigs := [] |}.
+     d_tx := None; d_docs := []; d_keys58 := []; d_sigs := []; d_watch := []; d_denoms := [] |}.
 
 Definition upd_tables (st : dstate) (u : list (bytes * bytes)) (bb : list (bytes * bytes)) : dstate :=
   {| d_unbech := u; d_bech := bb; d_chain := d_chain st; d_now := d_now st; d_fee_collector := d_fee_collector st;
-     d_blocked := d_blocked st; d_tx := d_tx st; d_docs := d_docs st; d_keys58 := d_keys58 st; d_sigs := d_sigs st |}.
+     d_blocked := d_blocked st; d_tx := d_tx st; d_docs := d_docs st; d_keys58 := d_keys58 st; d_sigs := d_sigs st; d_watch := d_watch st; d_denoms := d_denoms st |}.
 Definition upd_chain (st : dstate) (c : chain) : dstate :=
   {| d_unbech := d_unbech st; d_bech := d_bech st; d_chain := c; d_now := d_now st; d_fee_collector := d_fee_collector st;
-     d_blocked := d_blocked st; d_tx := d_tx st; d_docs := d_docs st; d_keys58 := d_keys58 st; d_sigs := d_sigs st |}.
+     d_blocked := d_blocked st; d_tx := d_tx st; d_docs := d_docs st; d_keys58 := d_keys58 st; d_sigs := d_sigs st; d_watch := d_watch st; d_denoms := d_denoms st |}.
 Definition upd_tx (st : dstate) (t : option pending) : dstate :=
   {| d_unbech := d_unbech st; d_bech := d_bech st; d_chain := d_chain st; d_now := d_now st; d_fee_collector := d_fee_collector st;
-     d_blocked := d_blocked st; d_tx := t; d_docs := d_docs st; d_keys58 := d_keys58 st; d_sigs := d_sigs st |}.
+     d_blocked := d_blocked st; d_tx := t; d_docs := d_docs st; d_keys58 := d_keys58 st; d_sigs := d_sigs st; d_watch := d_watch st; d_denoms := d_denoms st |}.
 Definition upd_env (st : dstate) (now : Z) (fc : bytes) (bl : list bytes) : dstate :=
   {| d_unbech := d_unbech st; d_bech := d_bech st; d_chain := d_chain st; d_now := now; d_fee_collector := fc;
-     d_blocked := bl; d_tx := d_tx st; d_docs := d_docs st; d_keys58 := d_keys58 st; d_sigs := d_sigs st |}.
+     d_blocked := bl; d_tx := d_tx st; d_docs := d_docs st; d_keys58 := d_keys58 st; d_sigs := d_sigs st; d_watch := d_watch st; d_denoms := d_denoms st |}.
 
 Definition unbech_of (st : dstate) (s : bytes) : option bytes := lookup s (d_unbech st).
 Definition bech_of (st : dstate) (a : bytes) : bytes :=
@@ -49,7 +51,12 @@ Definition upd_did_tables (st : dstate) (docs : list (bytes * did_doc)) (k58 : l
            (sigs : list (bytes * (bytes * bytes))) : dstate :=
   {| d_unbech := d_unbech st; d_bech := d_bech st; d_chain := d_chain st; d_now := d_now st;
      d_fee_collector := d_fee_collector st; d_blocked := d_blocked st; d_tx := d_tx st;
-     d_docs := docs; d_keys58 := k58; d_sigs := sigs |}.
+     d_docs := docs; d_keys58 := k58; d_sigs := sigs; d_watch := d_watch st; d_denoms := d_denoms st |}.
+
+Definition upd_watch (st : dstate) (w : list bytes) (ds : list bytes) : dstate :=
+  {| d_unbech := d_unbech st; d_bech := d_bech st; d_chain := d_chain st; d_now := d_now st;
+     d_fee_collector := d_fee_collector st; d_blocked := d_blocked st; d_tx := d_tx st;
+     d_docs := d_docs st; d_keys58 := d_keys58 st; d_sigs := d_sigs st; d_watch := w; d_denoms := ds |}.
 
 (** ** compkey commands *)
 Definition kind_of_tok (t : tok) : option key_kind :=
@@ -419,6 +426,10 @@ Definition base_msg_of_toks2 (ts : list tok) : option base_msg :=
         | Some f', Some t', Some cs' => Some (BSend f' t' cs') | _, _, _ => None end
       else base_msg_of_toks ts
   | [kind; g; r; u; ex] =>
+      if tok_is kind "vesting.Create" then
+        match bytes_of_tok g, bytes_of_tok r, coins_of_tok u, z_of_tok ex with
+        | Some f', Some t', Some cs', Some et' => Some (BVest f' t' cs' et') | _, _, _, _ => None end
+      else
       if tok_is kind "authz.Grant" then
         match bytes_of_tok g, bytes_of_tok r, bytes_of_tok u, optz_of_tok ex with
         | Some g', Some r', Some u', Some ex' => Some (BGrant g' r' u' ex') | _, _, _, _ => None end
@@ -439,6 +450,18 @@ Definition result_line (r : tx_result) : bytes :=
   | RMsg i cs code => join_toks [b "R"; b "msg"; print_n (N.of_nat i); cs; print_n code]
   | RMsgPanic => b "R panic"
   end.
+
+Definition coins_tok (cs : coins) : bytes :=
+  match cs with
+  | [] => b "-"
+  | _ => join_with ","%byte (map (fun c => to_hex (fst c) ++ b ":" ++ print_dec (snd c)) cs)
+  end.
+
+(** balance deltas of the watched addresses (and the supply) caused by one transaction *)
+Definition delta_line (st : dstate) (before after : bank) : bytes :=
+  join_toks (b "T" ::
+    flat_map (fun a => map (fun d => print_z (Z.of_N (balance after a d) - Z.of_N (balance before a d))) (d_denoms st)) (d_watch st)
+    ++ map (fun d => print_z (Z.of_N (supply_of after d) - Z.of_N (supply_of before d))) (d_denoms st)).
 
 Definition aol_val_toks (v : aol_val) : list tok :=
   match v with
@@ -606,6 +629,10 @@ Definition chain_cmd (st : dstate) (cmd : tok) (args : list tok) : option (dstat
                 | Some v' =>
                     if tok_is k "fee_collector" then Some (upd_env st (d_now st) v' (d_blocked st), [])
                     else if tok_is k "blocked" then Some (upd_env st (d_now st) (d_fee_collector st) (v' :: d_blocked st), [])
+                    else if tok_is k "watch" then Some (upd_watch st (d_watch st ++ [v']) (d_denoms st), [])
+                    else if tok_is k "denom" then Some (upd_watch st (d_watch st) (d_denoms st ++ [v']), [])
+                    else if tok_is k "account" then
+                      Some (upd_chain st (with_bank (d_chain st) (add_account (c_bank (d_chain st)) v')), [])
                     else Some (st, bad)
                 | None => Some (st, bad) end
     | _ => Some (st, bad)
@@ -616,7 +643,8 @@ Definition chain_cmd (st : dstate) (cmd : tok) (args : list tok) : option (dstat
         match bytes_of_tok a, bytes_of_tok d, parse_dec n with
         | Some a', Some d', Some n' =>
             let c := d_chain st in
-            Some (upd_chain st (with_bank c (set_balance (c_bank c) a' d' n')), [])
+            let bk := add_account (set_balance (c_bank c) a' d' n') a' in
+            Some (upd_chain st (with_bank c (set_supply bk d' (supply_of bk d' + n'))), [])
         | _, _, _ => Some (st, bad)
         end
     | _ => Some (st, bad)
@@ -679,11 +707,15 @@ Definition chain_cmd (st : dstate) (cmd : tok) (args : list tok) : option (dstat
     | Some p =>
         let t := {| tx_msgs := rev (p_msgs p); tx_signed_by := p_signers p; tx_fee := p_fee p |} in
         let '(c', r) := deliver_tx (env_of st) (d_chain st) t in
-        Some (upd_tx (upd_chain st c') None, [result_line r])
+        Some (upd_tx (upd_chain st c') None, [result_line r; delta_line st (c_bank (d_chain st)) (c_bank c')])
     | None => Some (st, bad)
     end
   else if tok_is cmd "ENDBLOCK" then
-    Some (upd_chain st (end_block (env_of st) (d_chain st)), [])
+    let c := d_chain st in
+    let c' := end_block (env_of st) c in
+    Some (upd_chain st c',
+          [join_toks (b "B" :: coins_tok (spendable_coins (c_bank c) (d_now st) Generated.GenApp.burn_address)
+                        :: map (fun d => print_z (Z.of_N (supply_of (c_bank c') d) - Z.of_N (supply_of (c_bank c) d))) (d_denoms st))])
   else if tok_is cmd "G" then
     (* genesis map entries: G aol.<kind> <key string> <fields> *)
     match args with
